@@ -305,7 +305,10 @@ struct Knobs {
 }
 
 async fn one_case(run: &mut Run, rng: &mut Rng, tmp: &Path, knobs: &Knobs, v6_ok: bool) {
-    let receiver = tokio::net::UdpSocket::bind("127.0.0.1:0").await.expect("receiver socket");
+    // one case in ten talks to an IPv6 receiver: then ::1 is the only address that gets a socket
+    let v6_case = v6_ok && rng.chance(1, 10);
+    let host = if v6_case { "::1" } else { "127.0.0.1" };
+    let receiver = tokio::net::UdpSocket::bind((host, 0)).await.expect("receiver socket");
     let port = receiver.local_addr().unwrap().port();
     let binder = Arc::new(BinderCtl { fail: Mutex::new(HashSet::new()), log: Mutex::new(vec![]) });
     let binder_dyn: Arc<dyn UplinkBinder> = make_binder(binder.clone());
@@ -322,7 +325,14 @@ async fn one_case(run: &mut Run, rng: &mut Rng, tmp: &Path, knobs: &Knobs, v6_ok
         if !pool.contains(&a) { pool.push(a); }
     }
     let mut bad: Vec<IpAddr> = vec![IpAddr::V4(Ipv4Addr::new(10, 255, 0, rng.range(1, 3) as u8))];
-    if v6_ok {
+    if v6_case {
+        // IPv4 sockets cannot reach the IPv6 receiver: all of them are "socket creation fails"
+        bad.extend(pool.drain(..).take(3));
+        pool = vec![IpAddr::V6(Ipv6Addr::LOCALHOST)];
+        bad.push(IpAddr::V6(Ipv4Addr::new(127, 0, 0, 1).to_ipv6_mapped()));
+        bad.push(IpAddr::V6(Ipv6Addr::new(0xfe80, 0, 0, 0, 0, 0, 0, 1)));
+        run.count("case:ipv6_receiver");
+    } else if v6_ok {
         bad.push(IpAddr::V6(Ipv6Addr::LOCALHOST));
         bad.push(IpAddr::V6(Ipv4Addr::new(127, 0, 0, rng.range(1, 4) as u8).to_ipv6_mapped()));
         bad.push(IpAddr::V6(Ipv6Addr::new(0xfe80, 0, 0, 0, 0, 0, 0, rng.range(1, 3) as u16)));
@@ -336,7 +346,7 @@ async fn one_case(run: &mut Run, rng: &mut Rng, tmp: &Path, knobs: &Knobs, v6_ok
 
     let mut w = World {
         conns: SmallVec::new(), conn_io: ConnIoMap::new(), tracker: SequenceTracker::new(), last_sel: None,
-        pending: None, host: "127.0.0.1".into(), port, binder, binder_dyn, tokens: vec![], probes,
+        pending: None, host: host.into(), port, binder, binder_dyn, tokens: vec![], probes,
         always_fail: bad.iter().copied().collect(),
         id_names: RefCell::new(vec![]), st_names: RefCell::new(HashMap::new()),
     };
@@ -402,6 +412,7 @@ async fn one_case(run: &mut Run, rng: &mut Rng, tmp: &Path, knobs: &Knobs, v6_ok
             if rng.chance(1, 8) { pkt[4] |= 0x04; }
             let n = pkt.len();
             let src: SocketAddr = "127.0.0.1:40000".parse().unwrap();
+            let _ = &receiver;
             vh::handle_srt_packet(Ok((n, src)), &mut pkt, &mut w.conns, &w.conn_io, &mut w.last_sel, &mut w.tracker,
                                   &mut client, true, &cfg, &critical).await;
             let fwd = w.tracker.get(seq, now).and_then(|id| w.conns.iter().position(|c| c.conn_id == id));
